@@ -35,6 +35,9 @@ func (m *Multi) ClearLoaders() {
 // Open will open the file passed by trying all loaders in succession.
 func (m *Multi) Open(name string) (io.ReadCloser, error) {
 	for _, loader := range m.loaders {
+		if !loader.Exists(name) {
+			continue // Open may succeed on something that is not a template (a directory): answer from the loader Exists() answers from
+		}
 		if f, err := loader.Open(name); err == nil {
 			return f, nil
 		}
